@@ -25,6 +25,9 @@ def run(ctx, db, tier):
     handle_linear(ctx, db)
     entries(ctx, db)
     shared.claimed_promise(ctx, db, 'C04.claimed-promise')
+    refused_start_empty(ctx, db)
+    from . import C01
+    C01.state_tag_agrees(ctx, db, 'C04.payload-representation')
     co_await_wiring(ctx, db)
     shared.final_awaiter(ctx, db, 'C04.final-awaiter')
     dtor(ctx, db)
@@ -186,3 +189,55 @@ def bound_writers(ctx, db):
             ss = [e for e in f.events() if e.k == 'call' and norm(e.get('callee')) in shared.SET]
             ok = len(ss) == 1 and norm(ss[0].get('lfield') or ss[0].get('field') or '') == shared.FUT
             ctx.ob(rid, f, f['key'], ok, '%s stores into the bound future only' % name.split('::')[-1], desc='%s does not store into _future exactly once' % name)
+
+
+def refused_start_empty(ctx, db):
+    """start(promise&): a refused start hands back nothing resumable.  suspend_point(handle, value) registers the handle without testing it,
+    so the handle returned by start_promise may only reach it on the edge where it was tested non-null"""
+    rid = ctx.rule('C04.refused-start-empty', 'PATHS', 'async::start(promise&): the handle returned by start_promise enters the returned suspend_point only on the edge where it tested '
+                   'non-null; on the other edge the suspend_point is built without a handle and carries false', floor=1)
+    n = 0
+    for f, trs in traces_of(db, 'cocls::async::start', per_instance=False):
+        if not any('promise' in p['type'] and '&&' not in p['type'] for p in f['params']):
+            continue
+        trs = [t for t in trs if live(t)]
+        ctx.paths(rid, len(trs))
+        bad = None; nyes = nno = 0
+        for tr in trs:
+            si = index_of(tr, lambda ev: ev.k == 'call' and norm(ev.get('callee')) == 'cocls::async::start_promise' and ev.get('depth', 0) == 0)
+            if si < 0:
+                bad = bad or ('start(promise&) does not go through start_promise', tr); continue
+            hp = 'call(cocls::async::start_promise)'
+            names = {hp}
+            tested = None
+            for i, it in enumerate(tr[si:], si):
+                if it.k == 'decl' and (it.get('init') or '') in names and it.get('depth', 0) == 0:
+                    names.add(it.get('var'))
+                if it.k == 'branch' and it.get('depth', 0) == 0 and tested is None:
+                    ce = cond_event(tr, i)
+                    if ce is not None and ce.k == 'call' and 'operator bool' in (ce.get('callee') or '') and (ce.get('recv') or '') in names:
+                        tested = bool(it.val)
+                    else:
+                        nn = nullness(it)
+                        if nn and nn[0] in names:
+                            tested = nn[1]
+            cons = [c for c in calls(tr) if c.k == 'construct' and 'suspend_point' in (c.get('type') or '') and c.get('depth', 0) == 0 and not c.get('copy_or_move')]
+            withh = [c for c in cons if any(re.sub(r'^(ctor|move|forward)\((.*)\)$', r'\2', a.get('path') or '') in names for a in c.get('args', []))]
+            if withh:
+                nyes += 1
+                if tested is not True:
+                    bad = bad or ('the handle returned by start_promise enters a suspend_point without having been tested non-null (a refused start would resume a null handle)', tr)
+            else:
+                nno += 1
+                if tested is not False:
+                    bad = bad or ('a path returns without the started coroutine although the start was not seen refused', tr)
+                for c in cons:
+                    cs = [a.get('const') for a in c.get('args', []) if a.get('const') is not None]
+                    if cs and cs[-1] not in (0, False):
+                        bad = bad or ('a refused start reports true', tr)
+        if not bad and (nyes == 0 or nno == 0):
+            bad = ('start(promise&) lost one of its two outcomes', trs[0] if trs else [])
+        n += 1
+        ctx.ob(rid, f, f['key'], bad is None, 'handle forwarded iff non-null' + ('' if not bad else ' -- ' + bad[0]), desc=bad[0][:100] if bad else None, trace=fmt_trace(bad[1]) if bad else None)
+    if n == 0:
+        raise Broken('async::start(promise&) not instantiated')
